@@ -1,5 +1,6 @@
 /- Helper lemmas for the C09 models (Mpir/Model/Root.lean). -/
 import MpirProofs.Lemmas.Base
+import MpirProofs.Lemmas.Bits
 import Mpir.Model.Root
 import Mathlib.Tactic.Ring
 import Mathlib.Tactic.Linarith
@@ -1625,6 +1626,37 @@ theorem perfect_power_sound (hrr : RootremSpec) (u : Int) (h : mpzPerfectPowerP 
               have : decide (u < 0) = true := by simpa using hneg
               rw [this] at m1
               exact f2 (by simp at m1; omega)
+
+
+
+
+/-! ### mpn_perfect_square_p: the normalising final test -/
+
+/-- the third test of mpn_perfect_square_p on ANY limb vector (high zero limbs allowed, all-zero
+    included): true exactly for squares. -/
+theorem perfectSquareFinal_iff (up : List Nat) (hl : Limbs up) :
+    perfectSquareFinal up = true ↔ ∃ k, val up = k * k := by
+  obtain ⟨n1, n2, n3, -, -⟩ := Mpir.Bits.normalize_spec up
+  unfold perfectSquareFinal
+  dsimp only
+  generalize normalize up = nz at *
+  cases nz with
+  | nil =>
+    simp only [List.isEmpty_nil, if_true, true_iff]
+    exact ⟨0, by rw [← n1]; simp⟩
+  | cons x xs =>
+    have hne : (x :: xs) ≠ [] := by simp
+    have hhi : (x :: xs).getLastD 0 ≠ 0 := by
+      intro h
+      apply n2
+      rw [List.getLastD_eq_getLast?] at h
+      cases hg : (x :: xs).getLast? with
+      | none => simp at hg
+      | some v => rw [hg] at h; simp at h; rw [h]
+    have key := (sqrtrem_full (x :: xs) (n3 hl) hne hhi).2.2.2.2
+    rw [n1] at key
+    simp only [List.isEmpty_cons, Bool.false_eq_true, if_false, beq_iff_eq]
+    exact key
 
 
 end Mpir.Root
